@@ -21,7 +21,7 @@ pub fn check(tier: Tier) -> Check {
             parts.push(Part::new("C15/cancel", json!({"depth": d, "r": r}), k, tier.pick(30, 500)));
         }
     }
-    parts.push(Part::new("C15/cancel", json!({"depth": tier.pick(5, 6), "r": 1, "flavour": 1}), 0, tier.pick(30, 500)));
+    parts.push(Part::new("C15/cancel", json!({"depth": tier.pick(5, 6), "r": 1, "flavour": 1, "own_rm": 20}), 0, tier.pick(30, 500)));
     // identifier flavour: the counters start next to a boundary of their encodings (DESIGN 4)
     parts.push(Part::new("C15/cancel", json!({"depth": tier.pick(5, 6), "r": 2, "ids": [65534, 127]}), 0, tier.pick(30, 500)));
     parts.push(Part::new("C15/cancel", json!({"depth": tier.pick(4, 5), "r": 1, "ids": [255, 16383]}), 1, tier.pick(30, 500)));
